@@ -59,8 +59,9 @@ def oblig(r):
     return obs
 
 
-def midrun(kind, dim, mode, free=0):
-    """arbitrary pre-state (members need not satisfy c), SetConstraints, then Step: every evaluation satisfies c"""
+def midrun(kind, dim, mode, free=0, via='SetConstraints'):
+    """arbitrary pre-state (members need not satisfy c), SetConstraints (or the constraints= keyword of Step), then Step: every
+    evaluation satisfies c"""
     def h(ctx):
         w = L.World(ctx, dim, box=False, cons=None)
         if kind in ('DE', 'DE2'):
@@ -102,8 +103,11 @@ def midrun(kind, dim, mode, free=0):
         n0 = len(w.calls)
         w.c = ctx.ufunc('c', dim, nout=dim)
         w.cons = mode
-        s.SetConstraints(w.constraint)
-        s.Step(**kw)
+        if via == 'SetConstraints':
+            s.SetConstraints(w.constraint)
+            s.Step(**kw)
+        else:
+            s.Step(constraints=w.constraint, **kw)        # documented: installed for this and the following iterations
         obs = calls_feasible(w, n0)
         obs.append(('ran', const(True)))
         return obs
@@ -165,6 +169,15 @@ def instances(tier, seed):
                 if q and kind.startswith('DE') and (kind, mode) not in (('DE', 'pure'), ('DE2', 'inplace')):
                     continue
                 out.append(Instance('midrun-constraints/%s/%s/dim=1/free=%d' % (kind, mode, free), midrun(kind, 1, mode, free)))
+    for kind in ('NM', 'Powell', 'DE'):
+        out.append(Instance('midrun-constraints/%s/pure/dim=1/free=0/via-Step-keyword' % kind, midrun(kind, 1, 'pure', 0, via='Step')))
+    # tight / clip range modes with extra constraints (concrete 1-D boxes; 2-D in the thorough tier of C01/C02 only without constraints)
+    for kind in ('NM', 'Powell'):
+        for mode in ('clip=True', 'tight'):
+            for bi in ((0,) if q else (0, 2, 6)):
+                lo, hi = S.BOX_POOL[bi]
+                # (NM needs a third step for its first trial vertex outside the box)
+                out.append(Instance('mode-step/%s/%s/box%d/pure' % (kind, mode, bi), S.mode_step(kind, mode, lo, hi, 'pure', oblig, steps=3 if kind == 'NM' else 2)))
     if not q:
         out.append(Instance('midrun-constraints/NM/pure/dim=2/free=0', midrun('NM', 2, 'pure')))
     for kind in ('fmin', 'fmin_powell', 'diffev', 'diffev2'):
